@@ -80,7 +80,9 @@ def build(stages_file, out_file, limit=None):
             if not isinstance(issue, str):
                 issue = "ABSENT"
             c = row.get("confidence")
-            conf = -1 if c is None or isinstance(c, str) else int(round(float(c) * 1000))
+            # 1e-9 units (fits TLC's 32-bit integers for values <= 1): the reported float32 0.39199999 must stay
+            # below a threshold 0.392 typed by a user
+            conf = -1 if c is None or isinstance(c, str) or c != c else int(round(float(c) * 1e9))
             final_conf = conf
             snaps.append({"name": name, "cur": cur_abs, "same": cur_mols == inp_mols, "solved": bool(row.get("solved", False)),
                           "by": row.get("solved_by") if isinstance(row.get("solved_by"), str) else "ABSENT",
@@ -92,7 +94,7 @@ def build(stages_file, out_file, limit=None):
             skipped += 1
             continue
         events.append({"run": g["run"], "pos": k, "input": first.get(col, ""), "inp": inp_abs,
-                       "thr": int(round(float(g["thr"]) * 1000)), "conf": max(final_conf, 0), "stages": snaps})
+                       "thr": int(round(float(g["thr"]) * 1e9)), "conf": max(final_conf, 0), "stages": snaps})
         if limit and len(events) >= limit:
             break
     common.write_ndjson(out_file, events)
